@@ -23,7 +23,8 @@
    that the path tables are always well formed / the candidate stream always sorted (evaluated per molecule: pid_ok). *)
 From Coq Require Import ZArith List Bool Permutation.
 From Model Require Import PyBase Graph Rings RingsFilter RingsGen RingsGenSpec.
-From Proofs Require Import RingsProofs RingsMcb RingsRank RingsExt RingsDim RingsFund RingsMin RingsHorton RingsSizes RingsIso RingsEquiv RingsFilterProofs RingsGenProofs RingsGenWalks.
+From Gen Require Import RingsConsts.
+From Proofs Require Import RingsProofs RingsMcb RingsRank RingsExt RingsDim RingsFund RingsMin RingsHorton RingsSizes RingsIso RingsEquiv RingsFilterProofs RingsGenProofs RingsGenWalks RingsMarks RingsConstsProofs RingsCanon.
 Import ListNotations.
 Open Scope Z_scope.
 
@@ -560,3 +561,77 @@ Theorem C06_sssr_model_example :
   is_cycle_basis g [[1; 2; 3; 4; 5; 6]; [1; 2; 3; 8; 7; 6]] = true.
 Proof. exact ex_sssr_model. Qed.
 Print Assumptions C06_sssr_model_example.
+
+(* ---- the ring marks mean what they say (was: search against a bridge finder) ---- *)
+
+(* for a ring list accepted by the checker: an atom is marked in_ring exactly when it lies on a simple cycle of the graph *)
+Theorem C06_atom_mark_on_cycle : forall g rs v, is_cycle_basis g rs = true ->
+  (atom_in_ring rs v = true <-> exists c, is_cycle g c /\ In v c).
+Proof. exact atom_mark_on_cycle. Qed.
+Print Assumptions C06_atom_mark_on_cycle.
+
+(* a bond lies on a simple cycle exactly when it is not a bridge (its ends stay connected when the bond is deleted) *)
+Theorem C06_bond_on_cycle_iff_not_bridge : forall g a b, gwf g -> In b (gnbrs g a) ->
+  ((exists c, is_cycle g c /\ ring_has_edge c (norm_edge (a, b)) = true) <-> reach (del_edge g a b) a b).
+Proof. exact bond_on_cycle_iff_not_bridge. Qed.
+Print Assumptions C06_bond_on_cycle_iff_not_bridge.
+
+(* what the code computes for a bond ("both ends lie in one ring of the list") is, for an accepted list, "the bond lies on a
+   simple cycle", i.e. "the bond is not a bridge" *)
+Theorem C06_bond_mark_on_cycle : forall g rs a b, is_cycle_basis g rs = true -> In b (gnbrs g a) ->
+  (bond_in_ring rs a b = true <-> exists c, is_cycle g c /\ ring_has_edge c (norm_edge (a, b)) = true).
+Proof. exact bond_mark_on_cycle. Qed.
+Print Assumptions C06_bond_mark_on_cycle.
+
+Theorem C06_bond_mark_not_bridge : forall g rs a b, is_cycle_basis g rs = true -> In b (gnbrs g a) ->
+  (bond_in_ring rs a b = true <-> reach (del_edge g a b) a b).
+Proof. exact bond_mark_not_bridge. Qed.
+Print Assumptions C06_bond_mark_not_bridge.
+
+(* the mark calc_labels stores on a bond of the molecule: not a coordinate bond, and not a bridge of the graph without
+   coordinate bonds *)
+Theorem C06_bond_label_meaning : forall m rs n k bd, is_cycle_basis (graph_of_not_special m) rs = true -> In (k, bd) (nbrs m n) ->
+  (bond_label rs n (k, bd) = true <-> b_ord bd <> 8 /\ reach (del_edge (graph_of_not_special m) n k) n k).
+Proof. exact bond_label_meaning. Qed.
+Print Assumptions C06_bond_label_meaning.
+
+Theorem C06_marks_example :
+  is_cycle_basis ex_graph [[1;2;3;4;5;6]; [3;4;5;6;7;8]] = true /\
+  bond_in_ring [[1;2;3;4;5;6]; [3;4;5;6;7;8]] 8 11 = false /\ bond_in_ring [[1;2;3;4;5;6]; [3;4;5;6;7;8]] 3 8 = true /\
+  atom_in_ring [[1;2;3;4;5;6]; [3;4;5;6;7;8]] 11 = false /\ atom_in_ring [[1;2;3;4;5;6]; [3;4;5;6;7;8]] 7 = true /\
+  zmem 11 (component_of (del_edge ex_graph 8 11) 8) = false /\ zmem 8 (component_of (del_edge ex_graph 3 8) 3) = true.
+Proof. exact ex_marks. Qed.
+Print Assumptions C06_marks_example.
+
+(* ---- tie: the constants of the hand-written models are regenerated from the source (coq/gen/RingsConsts.v, tools/gen_rings.py) ---- *)
+Theorem C06_model_constants_from_source :
+  (forall e, is_terminal e = Nat.leb (length (snd e)) (Z.to_nat skin_terminal_max)) /\
+  (forall m, graph_of_not_special m = map (fun nl => (fst nl, keys (filter (fun mb => negb (b_ord (snd mb) =? special_order)) (snd nl)))) (m_adj m)) /\
+  (forall sssr n mb, bond_label sssr n mb = if b_ord (snd mb) =? labels_special_order then false else bond_in_ring sssr n (fst mb)) /\
+  (forall g ps, all4 g ps = all_ord aromatic_order g ps) /\
+  INF = pid_default_distance /\
+  (forall a b, touching a b = Nat.ltb (Z.to_nat condensed_touch_min) (length (common_atoms a b))) /\
+  (forall mc c, push_ok mc c = (Nat.ltb 2 (length mc) && Nat.leb (length mc) (length c + 1))) /\
+  (forall c rest, rings_filter (c :: rest) (Z.to_nat filter_single) = Ok [c]).
+Proof. exact model_constants_from_source. Qed.
+Print Assumptions C06_model_constants_from_source.
+
+Theorem C06_model_case_constants :
+  condensed_common_pair = 2 /\ condensed_common_many = 2 /\ condensed_terminal_contacts = 1 /\ condensed_terminals = 2 /\
+  connected_common_pair = 2 /\ connected_common_many = 2 /\ pid_step = 1.
+Proof. exact const_condensed_cases. Qed.
+Print Assumptions C06_model_case_constants.
+
+(* ---- canonical spelling (was: search against the lexicographic minimum over rotations and reflections) ---- *)
+
+(* for every oracle: every ring of at least three atoms that the modelled perception returns starts with its smallest atom and
+   continues with the smaller of that atom's two ring neighbours *)
+Theorem C06_sssr_model_canonical : forall g o rs, sssr_model g o = Ok rs ->
+  forall r, In r rs -> (3 <= length r)%nat -> canonical r.
+Proof. exact sssr_model_canonical. Qed.
+Print Assumptions C06_sssr_model_canonical.
+
+(* and that spelling is the only canonical one among all rotations and reflections of the ring *)
+Theorem C06_canonical_unique : forall r r', NoDup r -> (3 <= length r)%nat -> canonical r -> canonical r' -> dihedral r r' -> r = r'.
+Proof. exact canonical_unique. Qed.
+Print Assumptions C06_canonical_unique.
